@@ -20,6 +20,10 @@ MONITORS = [LedgerMonitor, BlotterMonitor]
 
 
 def generate(rng, i, tier):
+    if rng.random() < 0.04:
+        from .. import livegen
+
+        return livegen.gen_replace_race(rng)
     if rng.random() < 0.25:
         from .. import livegen
 
